@@ -35,11 +35,14 @@ class HarnessError(Exception):
 
 
 class Part(object):
-    def __init__(self, name, cases, worker, descr=''):
+    def __init__(self, name, cases, worker, descr='', serial=False):
         self.name = name
         self.cases = list(cases)
         self.worker = worker
         self.descr = descr
+        # serial parts run in the parent process (needed when a case itself starts
+        # multiprocessing children, which daemonic pool workers may not do)
+        self.serial = serial
 
 
 def jsonable(x):
@@ -144,13 +147,16 @@ def explore(parts, workers=None, records=None):
         p.name: {'cases': len(p.cases), 'states': set(), 'transitions': 0,
                  'outcomes': set(), 'violations': [], 'info': {}}
         for p in parts}
-    if workers > 1 and len(tasks) > 1:
+    par_tasks = [t for t in tasks if not parts[t[0]].serial]
+    ser_tasks = [t for t in tasks if parts[t[0]].serial]
+    if workers > 1 and len(par_tasks) > 1:
         ctx = multiprocessing.get_context('fork')
         with ctx.Pool(workers) as pool:
-            results = pool.imap(_work, tasks, chunksize=1)
+            results = pool.imap(_work, par_tasks, chunksize=1)
             results = list(results)
     else:
-        results = [_work(t) for t in tasks]
+        results = [_work(t) for t in par_tasks]
+    results += [_work(t) for t in ser_tasks]
     for pi, out in results:
         part = parts[pi]
         st = stats[part.name]
